@@ -426,7 +426,7 @@ def send_request(u):
     class Clock:
         pass
 
-    def make(shape, overall, spr=None, cb=False, percall=False, server=False):
+    def make(shape, overall, spr=None, cb=False, percall=False, server=False, flush=False):
         def f(*args):
             args = list(args)
             T = args.pop(0) if overall else None
@@ -435,7 +435,7 @@ def send_request(u):
             P2, P2S, now = args[0], args[1], args[2]
             arrivals = args[3:]
             clk = Clock()
-            clk.now, clk.waits, clk.events = now, [], 0
+            clk.now, clk.waits, clk.events, clk.log, clk.sent = now, [], 0, [], b''
             sched = [(a, FRAMES[k]) for a, k in zip(arrivals, shape)]
 
             class Conn(BaseConnection):
@@ -444,9 +444,13 @@ def send_request(u):
                 def is_open(self): return True
 
                 def empty_rxqueue(self):
-                    pass           # the schedules considered hold no frame that arrived before the call (hypothesis of the theorems)
+                    # without `flush` the schedules considered hold no frame that arrived before the call (hypothesis of the theorems)
+                    clk.log.append(1)
+                    while flush and sched and sched[0][0] <= clk.now:
+                        sched.pop(0)
 
                 def specific_send(self, payload):
+                    clk.log.append(2)
                     clk.sent = payload
 
                 def specific_wait_frame(self, timeout=2):
@@ -493,7 +497,10 @@ def send_request(u):
             res = out + [clk.events, len(clk.waits)]
             for w, t in clk.waits:
                 res += [w, t]
-            return res + [clk.now]
+            res = res + [clk.now]
+            if flush:       # also: the order of the calls on the connection before the first wait (1 = empty_rxqueue, 2 = send) and the frame sent
+                res = res + [len(clk.log)] + clk.log + [('bytes', clk.sent)]
+            return res
         return f
     L = []
     base = [('P2', 'Z'), ('P2S', 'Z'), ('now', 'Z')]
@@ -516,6 +523,8 @@ def send_request(u):
     for shape in ('', 'P', 'WP', 'W'):                  # send_request(request, timeout=Tp)
         L.append(dict(name='fn_send_request_percall_%s' % (shape or 'silence'), params=[('T', 'Z'), ('Tp', 'Z')] + base + arr(shape), result='S',
                       call=make(shape, True, percall=True)))
+    for shape in ('P', 'PP', 'WP', 'NP'):               # frames that arrived before the call are flushed, not taken for the answer (no hypothesis on the instants)
+        L.append(dict(name='fn_send_request_flush_%s' % shape, params=[('T', 'Z')] + base + arr(shape), result='S', call=make(shape, True, flush=True)))
     for shape in ('', 'P', 'W'):                        # ... with request_timeout None in the configuration
         L.append(dict(name='fn_send_request_percall_no_overall_%s' % (shape or 'silence'), params=[('Tp', 'Z')] + base + arr(shape), result='S',
                       call=make(shape, False, percall=True)))
@@ -528,6 +537,52 @@ def send_request(u):
         L.append(dict(name='fn_send_request_server_no_overall_%s' % (shape or 'silence'), params=[('S2', 'Z'), ('S2S', 'Z')] + base + arr(shape), result='S',
                       call=make(shape, False, server=True)))
     return L
+
+
+def unlock(u):
+    """C13: unlock_security_access with send_request replaced by two scripted positive replies (seed reply data d1, key reply data d2)"""
+    import symtrans as st
+    request, interpret = client_env(u)
+    import udsoncan.client as uc
+    from udsoncan import Response
+    from udsoncan.exceptions import InvalidResponseException, UnexpectedResponseException, NegativeResponseException
+    from udsoncan.connections import BaseConnection
+
+    class Conn(BaseConnection):
+        def open(self): return self
+        def close(self): pass
+        def is_open(self): return True
+        def empty_rxqueue(self): pass
+        def specific_send(self, payload): raise st.Refuse('the connection was used')
+        def specific_wait_frame(self, timeout=2): raise st.Refuse('the connection was used')
+
+    def algo(seed):
+        return seed[::-1]          # the key is the seed reversed (the model's algorithm flavour 1)
+
+    def run(level, params, d1, d2):
+        c = uc.Client(Conn(), config={'security_algo': algo})
+        sent = []
+        replies = [st.SymSeq([0x67]) + d1, st.SymSeq([0x67]) + d2]
+
+        def sr(req, timeout=-1):
+            sent.append(req.get_payload())
+            if len(sent) > 2:
+                raise st.Refuse('a third request')
+            return Response.from_payload(replies[len(sent) - 1])
+        c.send_request = sr
+        try:
+            c.unlock_security_access(level, params)
+            code = 0
+        except ValueError:
+            code = 1
+        except NotImplementedError:
+            code = 3
+        except InvalidResponseException:
+            code = 6
+        except UnexpectedResponseException:
+            code = 7
+        return [code, len(sent)] + [('bytes', p) for p in sent]
+    return [dict(name='fn_unlock', params=[('level', 'Z'), ('params', 'Y'), ('d1', ('seqx', 4, 1)), ('d2', ('seq', 2, 1))], result='S', call=run)]
 
 
 def pick(names):
@@ -544,6 +599,7 @@ def files(u):
             ('Fn_Codecs.v', 'udsoncan/common/CommunicationType.py, DataFormatIdentifier.py, AddressAndLengthFormatIdentifier.py, Baudrate.py',
              pick(['fn_alfid_byte', 'fn_commtype_byte', 'fn_commtype_from_byte', 'fn_dfi_byte', 'fn_dfi_from_byte', 'fn_baud', 'fn_baud_bytes', 'fn_baud_effective'])),
             ('Fn_Filesize.v', 'udsoncan/common/Filesize.py', pick(['fn_filesize_width'])),
+            ('Fn_Unlock.v', 'udsoncan/client.py (unlock_security_access, request_seed, send_key; send_request replaced by two scripted replies)', unlock),
             ('Fn_SendRequest.v', 'udsoncan/client.py (send_request, on a symbolic clock)', send_request),
             ('Fn_Decorator.v', 'udsoncan/client.py (standard_error_management)', decorator),
             ('Fn_Edition.v', 'udsoncan/client.py (__init__, set_config, set_configs, refresh_config, validate_config, clear_dtc, communication_control)', edition),
